@@ -2,6 +2,7 @@
   Helper lemmas of C04 part c04_allocsafe7 (Mpir/Model/AllocSafeMpf7.lean): block reads / writes inside the block.
 -/
 import MpirProofs.Lemmas.Mpf
+import MpirProofs.Props.C13
 import Mpir.Model.AllocSafeMpf7
 namespace Mpir.AllocSafe7
 open Mpir
